@@ -13,16 +13,30 @@ Init == l = 1
 Rev(sq) == [i \in 1..Len(sq) |-> sq[Len(sq) + 1 - i]]
 Min2(a, b) == IF a < b THEN a ELSE b
 
+\* A step takes k+1 items from its end (next / next_back: k = 0; nth(k) / nth_back(k)): it returns the last of them
+\* if that many are left, otherwise it reports the end and nothing is left (Iterator::nth consumes what it skips).
+\* Exp(st, i, fi, bi): expected outcomes of steps i.. given fi / bi items already taken from the front / back.
+RECURSIVE Exp(_, _, _, _, _)
+Exp(lines, st, i, fi, bi) ==
+  IF i > Len(st) THEN <<>>
+  ELSE LET n == Len(lines)
+           rem == n - fi - bi
+           k == IF "k" \in DOMAIN st[i] THEN st[i].k ELSE 0
+           take == k + 1
+           hit == take <= rem
+           front == st[i].s = "f"
+           fi2 == IF front THEN (IF hit THEN fi + take ELSE fi + rem) ELSE fi
+           bi2 == IF front THEN bi ELSE (IF hit THEN bi + take ELSE bi + rem)
+           item == IF ~hit THEN <<>> ELSE IF front THEN lines[fi + take] ELSE lines[n + 1 - (bi + take)]
+       IN <<[some |-> hit, item |-> item, rem |-> n - fi2 - bi2]>> \o Exp(lines, st, i + 1, fi2, bi2)
+
 SeqLinesViol(e) ==
   LET lines == FaChain(e.input)[1].rec.lines
       n == Len(lines)
       st == e.steps
-      \* every step consumes an item while there is one: step i succeeds iff i <= n
-      nf(i) == Cardinality({k \in 1..Min2(i, n) : st[k].s = "f"})
-      nb(i) == Min2(i, n) - nf(i)
-      rem(i) == n - Min2(i, n)
-      itemOK(i) == IF i <= n THEN st[i].some /\ st[i].item = (IF st[i].s = "f" THEN lines[nf(i)] ELSE lines[n + 1 - nb(i)])
-                   ELSE ~st[i].some
+      ex == Exp(lines, st, 1, 0, 0)
+      itemOK(i) == st[i].some = ex[i].some /\ (ex[i].some => st[i].item = ex[i].item)
+      rem(i) == ex[i].rem
       conj == <<
         <<"panic", ~e.panic>>,
         <<"initial_length_and_hint", e.panic \/ (e.pre.len = n /\ e.pre.lo = n /\ e.pre.hi = n)>>,
@@ -44,6 +58,9 @@ AdaptViol(e) ==
         <<"rev", e.panic \/ e.rev = Rev(R)>>,
         <<"zip", e.panic \/ (Len(e.zip) = m /\ \A j \in 1..m : e.zip[j].i = 9 + j /\ e.zip[j].l = R[j])>>,
         <<"skip", e.panic \/ e.skip1 = (IF m = 0 THEN <<>> ELSE Tail(R))>>,
+        <<"skip_k", e.panic \/ "skips" \notin DOMAIN e \/ \A k \in 1..Len(e.skips) : e.skips[k] = (IF k - 1 >= m THEN <<>> ELSE SubSeq(R, k, m))>>,
+        <<"step_by", e.panic \/ "step2" \notin DOMAIN e \/ e.step2 = [j \in 1..((m + 1) \div 2) |-> R[2 * j - 1]]>>,
+        <<"end_reported_by_skip_is_final", e.panic \/ "skip_far" \notin DOMAIN e \/ (e.skip_far.none /\ e.skip_far.left_len = 0 /\ e.skip_far.left_next_none)>>,
         <<"collect", e.panic \/ e.collect = R>>,
         <<"count", e.panic \/ e.count = m>>,
         <<"last", e.panic \/ e.last = (IF m = 0 THEN <<>> ELSE <<R[m]>>)>>,
